@@ -61,4 +61,6 @@ EXTRAS = [
     lambda rep, fb, tier: __import__("vf.rules.lints2", fromlist=["x"]).rule_minmax_direction(rep, fb),
     lambda rep, fb, tier: __import__("vf.rules.lints2", fromlist=["x"]).rule_missing_predicate(rep, fb),
     lambda rep, fb, tier: __import__("vf.rules.lints3", fromlist=["x"]).rule_list_carry_origin(rep, fb),
+    lambda rep, fb, tier: __import__("vf.rules.pyrules3", fromlist=["x"]).rule_py_unused_local(rep),
+    lambda rep, fb, tier: __import__("vf.rules.pyrules3", fromlist=["x"]).rule_py_duplicate_operand(rep),
 ]
